@@ -376,6 +376,11 @@ func (e *Env) ident(id *ast.Ident) Value {
 			return v
 		}
 	}
+	if e.contract {
+		if v, ok := e.x.ghostValue(e, id.Name); ok {
+			return v
+		}
+	}
 	var obj types.Object
 	if info := e.info(); info != nil {
 		obj = info.Uses[id]
@@ -644,6 +649,18 @@ func (e *Env) binary(n *ast.BinaryExpr) Value {
 }
 
 func (e *Env) shortCircuit(n *ast.BinaryExpr) Value {
+	if e.contract {
+		// contract expressions have no side effects
+		a := e.boolTerm(e.expr(n.X))
+		if (n.Op == token.LAND && a.IsFalse()) || (n.Op == token.LOR && a.IsTrue()) {
+			return Scalar{a, boolT}
+		}
+		b := e.boolTerm(e.expr(n.Y))
+		if n.Op == token.LAND {
+			return Scalar{And(a, b), boolT}
+		}
+		return Scalar{Or(a, b), boolT}
+	}
 	a := e.boolTerm(e.expr(n.X))
 	g := a
 	if n.Op == token.LOR {
@@ -678,6 +695,15 @@ func (e *Env) shortCircuit(n *ast.BinaryExpr) Value {
 	for k, v := range st2.vars {
 		if w, ok := e.st.vars[k]; ok && !sameValue(v, w) {
 			e.st.vars[k] = mergeVal(g, v, w)
+		}
+	}
+	for k, v := range st2.ghost {
+		// a ghost bound only under the guard is arbitrary otherwise: keep the bound value
+		if e.st.ghost == nil {
+			e.st.ghost = map[string]Value{}
+		}
+		if _, ok := e.st.ghost[k]; !ok {
+			e.st.ghost[k] = v
 		}
 	}
 	if n.Op == token.LAND {
@@ -741,6 +767,13 @@ func (e *Env) binop(op token.Token, a, b Value, at ast.Node) Value {
 	if sa.T.S != sb.T.S {
 		// mathint mixes with Int-represented values in contracts
 		if e.contract && sa.T.S.K != sb.T.S.K {
+			sa = Scalar{e.toIntTerm(sa), mathIntType}
+			sb = Scalar{e.toIntTerm(sb), mathIntType}
+		} else if sa.T.S.K == KBV && sb.T.S == IntS {
+			sb = Scalar{Int2BV(sa.T.S.W, sb.T), sa.Typ}
+		} else if sb.T.S.K == KBV && sa.T.S == IntS {
+			sa = Scalar{Int2BV(sb.T.S.W, sa.T), sb.Typ}
+		} else if e.contract {
 			sa = Scalar{e.toIntTerm(sa), mathIntType}
 			sb = Scalar{e.toIntTerm(sb), mathIntType}
 		} else {
@@ -831,12 +864,12 @@ func (e *Env) binop(op token.Token, a, b Value, at ast.Node) Value {
 		if !e.contract {
 			e.x.safety(e, "div", at, Ne(sb.T, IntC(0)))
 		}
-		return e.arithResult(TDiv(sa.T, sb.T), typ, at)
+		return e.arithResult(e.tdiv(sa.T, sb.T), typ, at)
 	case token.REM:
 		if !e.contract {
 			e.x.safety(e, "div", at, Ne(sb.T, IntC(0)))
 		}
-		return Scalar{TMod(sa.T, sb.T), typ}
+		return Scalar{e.tmod(sa.T, sb.T), typ}
 	case token.EQL:
 		return Scalar{Eq(sa.T, sb.T), boolT}
 	case token.NEQ:
@@ -863,7 +896,7 @@ func (e *Env) intBitop(op token.Token, a, b Scalar, typ types.Type) Value {
 		a, b = b, a
 	}
 	if b.T.Op != "const" {
-		unsupported("%s: bitwise %s on two non-constant Int-represented operands of type %s (use repr bv)", e.where, op, typ)
+		return e.bvEmbed(op, a, b, typ)
 	}
 	c := b.T.V
 	if a.T.Op == "const" {
@@ -896,7 +929,7 @@ func (e *Env) intBitop(op token.Token, a, b Scalar, typ types.Type) Value {
 	}
 	lo, n, ok := contigMask(c)
 	if !ok {
-		unsupported("%s: bitwise %s with non-contiguous constant mask %s on Int-represented value", e.where, op, c)
+		return e.bvEmbed(op, a, b, typ)
 	}
 	// field = ((x div 2^lo) mod 2^n) * 2^lo  (euclidean: correct for two's complement negatives)
 	field := Mul(EMod(EDiv(a.T, IntB(pow2(lo))), IntB(pow2(n))), IntB(pow2(lo)))
@@ -911,6 +944,28 @@ func (e *Env) intBitop(op token.Token, a, b Scalar, typ types.Type) Value {
 		// x ^ c = x - field + (c - field)
 		return Scalar{Add(Sub(a.T, field), Sub(IntB(c), field)), typ}
 	}
+	return nil
+}
+
+// bvEmbed: bitwise operator on Int-represented operands through a local bit-vector embedding; the
+// result stays a bit vector (variables listed in the contract's `bv` clause keep that form).
+func (e *Env) bvEmbed(op token.Token, a, b Scalar, typ types.Type) Value {
+	ii, ok := intInfoOf(typ)
+	if !ok || isMathInt(typ) {
+		unsupported("%s: bitwise %s on %s", e.where, op, typ)
+	}
+	x, y := Int2BV(ii.W, a.T), Int2BV(ii.W, b.T)
+	switch op {
+	case token.AND:
+		return Scalar{BVBin("bvand", x, y), typ}
+	case token.OR:
+		return Scalar{BVBin("bvor", x, y), typ}
+	case token.XOR:
+		return Scalar{BVBin("bvxor", x, y), typ}
+	case token.AND_NOT:
+		return Scalar{BVBin("bvand", x, BVNot(y)), typ}
+	}
+	unsupported("bvEmbed %s", op)
 	return nil
 }
 
@@ -1463,3 +1518,65 @@ func (x *Exec) findPkgByName(from *packages.Package, name string) *types.Package
 }
 
 var _ = fmt.Sprintf
+
+// tdiv / tmod: Go's truncated division; when the dividend is known to be non-negative (syntactically
+// or by an assumption already on the path) it coincides with SMT's euclidean div/mod.
+func (e *Env) tdiv(a, b *Term) *Term {
+	if b.Op == "const" && b.V.Sign() > 0 && e.knownNonNeg(a, 0) {
+		return EDiv(a, b)
+	}
+	return TDiv(a, b)
+}
+
+func (e *Env) tmod(a, b *Term) *Term {
+	if b.Op == "const" && b.V.Sign() > 0 && e.knownNonNeg(a, 0) {
+		return EMod(a, b)
+	}
+	return TMod(a, b)
+}
+
+func (e *Env) knownNonNeg(t *Term, depth int) bool {
+	if depth > 6 {
+		return false
+	}
+	switch t.Op {
+	case "const":
+		return t.V.Sign() >= 0
+	case "var":
+		if strings.Contains(t.Name, ".len!") || strings.Contains(t.Name, ".cap!") {
+			return true
+		}
+	case "+", "*":
+		all := true
+		for _, a := range t.Args {
+			if !e.knownNonNeg(a, depth+1) {
+				all = false
+				break
+			}
+		}
+		if all {
+			return true
+		}
+	case "div", "mod":
+		if t.Args[1].Op == "const" && t.Args[1].V.Sign() > 0 {
+			if t.Op == "mod" || e.knownNonNeg(t.Args[0], depth+1) {
+				return true
+			}
+		}
+	case "ite":
+		if e.knownNonNeg(t.Args[1], depth+1) && e.knownNonNeg(t.Args[2], depth+1) {
+			return true
+		}
+	case "bv2nat":
+		return true
+	}
+	if e.st != nil {
+		zero := IntC(0)
+		for _, p := range e.st.pc {
+			if p.Op == "<=" && termEq(p.Args[0], zero) && termEq(p.Args[1], t) {
+				return true
+			}
+		}
+	}
+	return false
+}
